@@ -10,8 +10,8 @@ Open Scope Z_scope.
 Definition henc (alg : Z) (b : blob) : bytes := alg :: flat_map (fun c => [fst c; snd c]) b.
 
 Record case := mkCase {
-  k_events : list event;
-  k_resps : list response;
+  k_events : list cevent;             (* the linearized history: requests, arrivals, lock grants, expiry *)
+  k_resps : list (option response);   (* the response observed at each step, if any *)
   k_objects : list (Z * blob) }.      (* ascending key id *)
 
 Definition cfg0 : config := mkCfg 6291456 5242880 67108864.
@@ -33,5 +33,6 @@ Fixpoint ins (o : Z * blob) (l : list (Z * blob)) : list (Z * blob) :=
 Definition sort_objs (l : list (Z * blob)) : list (Z * blob) := fold_right ins [] l.
 
 Definition check_case (k : case) : bool :=
-  let '(w, rs) := run henc cfg0 init_world (k_events k) in
-  list_eqb resp_eqb rs (k_resps k) && list_eqb obj_eqb (sort_objs (w_objects w)) (k_objects k).
+  let '(y, rs) := crun henc cfg0 init_sys (k_events k) in
+  list_eqb (opt_eqb resp_eqb) rs (k_resps k) &&
+  list_eqb obj_eqb (sort_objs (w_objects (y_w y))) (k_objects k).
